@@ -249,7 +249,7 @@ def canonical_variant_functions(crate):
             continue
         ws = [c for c in b.all_calls() if c.callee and c.callee.name == "weak_shape"]
         var = [c for c in b.all_calls() if c.callee and "variants" in (c.callee.name or "")]
-        if ws and var:
+        if var:
             out.append(b.id)
     return sorted(out)
 
